@@ -4,7 +4,8 @@ from contracts import sample as S
 
 UNITS = list(S.SAMPLE2D_UNITS)
 LEMMAS = [L.LerpBound(), L.MaskedIgnored(), L.MaskedTerm()]
-NATIVE = [dict(name="lon/lat round trip on synthetic conformal grids and subgrids; sample2D corpus", harness="lonlat_bounded", kind="bounded")]
+NATIVE = [dict(name="lon/lat round trip on synthetic conformal grids and subgrids; sample2D corpus", harness="lonlat_bounded", kind="bounded"), 
+          dict(name="encoder validation: the interpreter in concrete mode vs the real numpy/numba functions", harness="validate_encoder", kind="validation", prepare="pyvc.validate:run_validation")]
 LEVEL = "other"
 LEVEL_TEXT = ("Proved for all inputs: sample2D equals the specified bilinear sample (weights renormalised over unmasked corners, undef_value when all four are masked), is a convex "
               "combination of the corners, exact on bilinear fields, ignores masked nodes (lemma over the specification), returns the substitute value outside the grid for every real "
